@@ -44,10 +44,17 @@ func orderRule(c *an.Ctx, cg *an.CG, roots []*ssa.Function, table map[string]str
 
 // orderRuleFuncs runs A1 over the given functions.
 func orderRuleFuncs(c *an.Ctx, cg *an.CG, fns []*ssa.Function, table map[string]string, keyPrefix string, scope func(*ssa.Function) bool, pathOf func(*ssa.Function) string) int {
+	return orderRuleFuncsX(c, cg, fns, table, keyPrefix, scope, pathOf, false)
+}
+
+// orderRuleFuncsX: with flow set, constant-seeded PRNG construction and clock
+// reads that flow only into the EVM tracer are decided structurally.
+func orderRuleFuncsX(c *an.Ctx, cg *an.CG, fns []*ssa.Function, table map[string]string, keyPrefix string, scope func(*ssa.Function) bool, pathOf func(*ssa.Function) string, flow bool) int {
 	es := newEffectSummary(c)
 	cfg := &an.OrderCfg{
 		CallClass:   func(callee *ssa.Function, _ ssa.CallInstruction) string { return es.Class(callee) },
 		InvokeClass: es.Invoke,
+		OrderedArgs: es.OrderedArgs,
 		IsSorter:    an.DefaultSorter,
 	}
 	c.Count("repo_functions_analysed", len(fns))
@@ -102,6 +109,12 @@ func orderRuleFuncs(c *an.Ctx, cg *an.CG, fns []*ssa.Function, table map[string]
 				continue
 			}
 			key := fmt.Sprintf("%s|%s|%s", keyPrefix, an.FuncName(fn), s)
+			if flow {
+				if why := benignNondet(k); why != "" {
+					c.Hold(key, "no wall-clock/random/environment input on the deterministic path", c.P.Rel(k.Pos()), why)
+					continue
+				}
+			}
 			if why, ok := table[an.FuncName(fn)+"#"+s]; ok {
 				c.Note(key, "no wall-clock/random/environment input on the deterministic path", c.P.Rel(k.Pos()), "decided by reading: "+why)
 				continue
@@ -146,4 +159,94 @@ func callersSortFirst(c *an.Ctx, cg *an.CG, fn *ssa.Function, cfg *an.OrderCfg) 
 	}
 	sort.Strings(bad)
 	return len(bad) == 0, strings.Join(bad, "; ")
+}
+
+// benignNondet recognises, structurally, the two deterministic uses of
+// time/rand on the execution path: a PRNG built from a constant seed, and a
+// clock read whose value flows only into calls on the EVM tracer.
+func benignNondet(k ssa.CallInstruction) string {
+	callee := k.Common().StaticCallee()
+	switch callee.String() {
+	case "math/rand.NewSource":
+		if _, isC := k.Common().Args[0].(*ssa.Const); isC {
+			return "constant seed"
+		}
+	case "math/rand.New":
+		if src, ok := k.Common().Args[0].(*ssa.Call); ok {
+			if f := src.Call.StaticCallee(); f != nil && f.String() == "math/rand.NewSource" {
+				if _, isC := src.Call.Args[0].(*ssa.Const); isC {
+					return "source with constant seed"
+				}
+			}
+		}
+	case "time.Now":
+		if v := k.Value(); v != nil && flowsOnlyToTracer(v, map[ssa.Value]bool{}, 0) {
+			return "the clock value flows only into EVM tracer callbacks (CaptureEnd duration)"
+		}
+	}
+	return ""
+}
+
+func flowsOnlyToTracer(v ssa.Value, seen map[ssa.Value]bool, depth int) bool {
+	if seen[v] {
+		return true
+	}
+	seen[v] = true
+	if depth > 6 || v.Referrers() == nil {
+		return false
+	}
+	for _, r := range *v.Referrers() {
+		switch x := r.(type) {
+		case *ssa.DebugRef:
+		case *ssa.Store:
+			// spilled into a local that a deferred closure reads
+			al, ok := x.Addr.(*ssa.Alloc)
+			if !ok || x.Val != v || !flowsOnlyToTracer(al, seen, depth+1) {
+				return false
+			}
+		case *ssa.UnOp:
+			if !flowsOnlyToTracer(x, seen, depth+1) {
+				return false
+			}
+		case *ssa.MakeClosure:
+			fn := x.Fn.(*ssa.Function)
+			for i, b := range x.Bindings {
+				if b == v && !flowsOnlyToTracer(fn.FreeVars[i], seen, depth+1) {
+					return false
+				}
+			}
+		case ssa.CallInstruction:
+			cc := x.Common()
+			if cc.IsInvoke() {
+				if strings.HasPrefix(cc.Method.Name(), "Capture") {
+					continue
+				}
+				return false
+			}
+			callee := cc.StaticCallee()
+			if callee == nil {
+				return false
+			}
+			switch callee.String() {
+			case "time.Since", "(time.Time).Sub":
+				if val := x.Value(); val == nil || !flowsOnlyToTracer(val, seen, depth+1) {
+					return false
+				}
+				continue
+			}
+			// passed to a function literal (deferred closure with parameters)
+			if callee.Parent() != nil {
+				for i, a := range cc.Args {
+					if a == v && i < len(callee.Params) && !flowsOnlyToTracer(callee.Params[i], seen, depth+1) {
+						return false
+					}
+				}
+				continue
+			}
+			return false
+		default:
+			return false
+		}
+	}
+	return true
 }
